@@ -158,6 +158,15 @@ def main(ctx):
     for fams in (quads[:1] if q else quads):
         for cond in zoo.structures(4):
             cases.append({"fams": fams, "cond_on": cond, "assign": "A", "kinds": kinds, "alphas": al4, "n_points": np4})
+    # dense n_points sweep in 2-D (float-step angle generation etc. only fails for particular n_points)
+    top = 361 if q else 1001
+    for fams, cond in ((["WeibullDistribution", "LogNormalDistribution"], [None, 0]),
+                       (["NormalDistribution", "GumbelR"], [None, None])):
+        for kind in kinds:
+            for lo in range(3, top, 20):
+                cases.append({"fams": fams, "cond_on": cond, "assign": "A", "kinds": [kind], "alphas": [1e-3],
+                              "n_points": list(range(lo, min(lo + 20, top)))})
+    ctx.extra["n_points_sweep_2d"] = [3, top - 1]
     for c in cases:
         ctx.axis("n_dim", len(c["fams"]))
         ctx.axis("structure", str(c["cond_on"]))
